@@ -112,21 +112,33 @@ func (in *Interp) fireTimer() bool {
 	if !in.ex.cfg.VirtualTime {
 		return false
 	}
+	return in.fireEarliest()
+}
+
+// fireEarliest fires the pending timer with the earliest virtual deadline (ties: arming
+// order) and advances the virtual clock to it.
+func (in *Interp) fireEarliest() bool {
+	var best *timerRec
 	for _, t := range in.timers {
-		if !t.pending {
-			continue
+		if t.pending && (best == nil || t.at < best.at) {
+			best = t
 		}
-		t.pending = false
-		if t.ch != nil {
-			if len(t.ch.buf) < t.ch.cap {
-				t.ch.buf = append(t.ch.buf, zeroTime)
-			}
-		} else if t.f != nil {
-			in.callValue(t.f, nil, nil)
-		}
-		return true
 	}
-	return false
+	if best == nil {
+		return false
+	}
+	best.pending = false
+	if best.at > in.vnow {
+		in.vnow = best.at
+	}
+	if best.ch != nil {
+		if len(best.ch.buf) < best.ch.cap {
+			best.ch.buf = append(best.ch.buf, zeroTime)
+		}
+	} else if best.f != nil {
+		in.callValue(best.f, nil, nil)
+	}
+	return true
 }
 
 var zeroTime Value = Struct{uint64(0), uint64(0), (*Value)(nil)}
